@@ -162,6 +162,7 @@ impl XPubSocketBackend {
 //@|    assumed_position(&\1.subscriptions, &sub)
 //@ spec
 //@|        ensures xsub_applied(old(self).subscribers@, final(self).subscribers@, *peer_id, message),
+//@|            final(self).fair_queue_inner == old(self).fair_queue_inner,
 //@ hint start
 //@|        broadcast use lemma_map_remove, lemma_map_push;
 //@|        broadcast use vstd::seq_lib::group_to_multiset_ensures;
@@ -396,6 +397,8 @@ impl XPubSocketBackend {
 //@ receiver-mut
 //@ spec
 //@|        ensures final(self).subscribers@ == old(self).subscribers@.remove(*peer_id),
+//@|            // C16: the queued read half is dropped as well
+//@|            final(self).fair_queue_inner.inner.streams@ == old(self).fair_queue_inner.inner.streams@.remove(*peer_id),
 //@ end
 }
 //@ item src/xpub.rs :: struct XPubSocket
@@ -527,12 +530,16 @@ impl XPubSocket {
 //@|                && #[trigger] xsub_applied(old(self).backend.subscribers@, final(self).backend.subscribers@, final(self).fair_queue.log@.last()->Some_0.0, m),
 //@|            failed_item(final(self).fair_queue.log@.last()) ==> final(self).backend.subscribers@ == old(self).backend.subscribers@.remove(final(self).fair_queue.log@.last()->Some_0.0),
 //@|            final(self).fair_queue.log@.last() is None ==> final(self).backend.subscribers@ == old(self).backend.subscribers@,
+//@|            // C16: a peer whose failure this call reports is forgotten completely (queued read half too)
+//@|            failed_item(final(self).fair_queue.log@.last()) ==> final(self).backend.fair_queue_inner.inner.streams@ == old(self).backend.fair_queue_inner.inner.streams@.remove(final(self).fair_queue.log@.last()->Some_0.0),
+//@|            !failed_item(final(self).fair_queue.log@.last()) ==> final(self).backend.fair_queue_inner.inner.streams@ == old(self).backend.fair_queue_inner.inner.streams@,
 //@ loop 1
 //@|            invariant
 //@|                self.fair_queue.log@.len() >= old(self).fair_queue.log@.len(),
 //@|                self.fair_queue.log@.subrange(0, old(self).fair_queue.log@.len() as int) =~= old(self).fair_queue.log@,
 //@|                forall|i: int| old(self).fair_queue.log@.len() <= i < self.fair_queue.log@.len() ==> skipped_item(#[trigger] self.fair_queue.log@[i]),
 //@|                self.backend.subscribers@ == old(self).backend.subscribers@,
+//@|                self.backend.fair_queue_inner.inner.streams@ == old(self).backend.fair_queue_inner.inner.streams@,
 //@ end
 }
 
